@@ -11,6 +11,7 @@ import (
 	"sort"
 	"sync"
 	"sync/atomic"
+	"time"
 
 	"github.com/trustbloc/sidetree-core-go/pkg/api/cas"
 	"github.com/trustbloc/sidetree-core-go/pkg/api/operation"
@@ -549,3 +550,30 @@ func (c *CountingApplier) Apply(op *operation.AnchoredOperation, rm *protocol.Re
 	}
 	return res, err
 }
+
+// DocMetrics is a no-op metrics provider for the document handler.
+type DocMetrics struct{}
+
+// ProcessOperation is a no-op.
+func (DocMetrics) ProcessOperation(time.Duration) {}
+
+// GetProtocolVersionTime is a no-op.
+func (DocMetrics) GetProtocolVersionTime(time.Duration) {}
+
+// ParseOperationTime is a no-op.
+func (DocMetrics) ParseOperationTime(time.Duration) {}
+
+// ValidateOperationTime is a no-op.
+func (DocMetrics) ValidateOperationTime(time.Duration) {}
+
+// DecorateOperationTime is a no-op.
+func (DocMetrics) DecorateOperationTime(time.Duration) {}
+
+// AddUnpublishedOperationTime is a no-op.
+func (DocMetrics) AddUnpublishedOperationTime(time.Duration) {}
+
+// AddOperationToBatchTime is a no-op.
+func (DocMetrics) AddOperationToBatchTime(time.Duration) {}
+
+// GetCreateOperationResultTime is a no-op.
+func (DocMetrics) GetCreateOperationResultTime(time.Duration) {}
